@@ -1,4 +1,4 @@
-package main
+package embx
 
 import (
 	"encoding/binary"
@@ -370,4 +370,4 @@ func mutate(rng *rand.Rand, data []byte, nargs int) ([]byte, string) {
 }
 
 func reflectMakeSlice(t abi.Type, n int) reflect.Value { return reflect.MakeSlice(t.Type, n, n) }
-func reflectValueOf(x interface{}) reflect.Value        { return reflect.ValueOf(x) }
+func reflectValueOf(x interface{}) reflect.Value       { return reflect.ValueOf(x) }
